@@ -37,6 +37,21 @@ def gen_specs(run):
                       "verifies": [{"mode": md, "vmembers": [gen.vmember(mem, 0)], "log": (N <= 256)} for md in ("VerifyOnly", "RecoverAndVerify", "RecoverOnly")],
                       "_conf": [b, m, T, cap, seed, rs["kind"], group], "with_gens": group == "fm" and N * (cap // m) <= (64 if quick else 128),
                       "log_merlin": True})
+    # degenerate but valid openings: zero blinding vectors, and value 0 with a zero blinding vector (the commitment is then the identity element)
+    zero_r = lambda T: [gen.hx(0)] * T
+    for i, (b, m, T, ident_at) in enumerate([(4, 1, 1, [0]), (8, 2, 2, [1]), (2, 4, 3, [0, 2]), (64, 1, 6, [0]), (1, 2, 1, [0, 1]), (16, 2, 2, [])]):
+        mem = gen.mk_member(rng, b, m, cap=m, T=T, seed=(m == 1 and i % 2 == 0), pkinds=["none" if j % 2 == 0 else "zero" for j in range(m)],
+                            vkinds=["rand"] * m)
+        for j in range(m):
+            if j in ident_at:
+                mem["commit"][j] = {"v": "0", "r": zero_r(T)}
+            elif not ident_at:
+                mem["commit"][j]["r"] = zero_r(T)      # commitment = v * H
+        mem["_kinds"]["value"] = ["identity-commitment" if j in ident_at else ("zero-blinding" if not ident_at else "rand") for j in range(m)]
+        for group in ("fm", "ristretto"):
+            specs.append({"id": f"c01-degenerate-{i}-{group}", "group": group, "members": [mem],
+                          "verifies": [{"mode": md, "vmembers": [gen.vmember(mem, 0)], "log": True} for md in ("VerifyOnly", "RecoverAndVerify", "RecoverOnly")],
+                          "_conf": [b, m, T, m, mem["seed"] is not None, mem["rng"]["kind"], group], "with_gens": group == "fm" and b * m <= 64, "log_merlin": True})
     return specs
 
 
@@ -83,7 +98,7 @@ def run(run: Run):
     sessions.run_sessions(run, specs, oracle, relevant=0xFF, extra_terms=Extra())
     return run.finish(
         "proof",
-        "valid witnesses on the configuration lattice (bits x aggregation x extension degree x capacity x seed x value/promise kinds x context x "
+        "valid witnesses on the configuration lattice (bits x aggregation x extension degree x capacity x seed x value/promise kinds incl. zero blinding vectors and identity commitments x context x "
         "prover-RNG fault model, Ristretto and free-module back ends); prove then verify in the three modes; the prover's five kinds of proof element are "
         "compared with the Coq prover model coordinate by coordinate and the verifier with the Coq verifier model; distinct by "
         "(bits, m, T, capacity ratio, seed, rng kind, group, value kinds, promise kinds)",
